@@ -187,7 +187,11 @@ func (ig *ingest) deliver(e *Effect) {
 		m.Walk(func(t *Term) {
 			if t.Op == "lookup" && len(t.Args) == 2 && t.Args[0].Key() == Field(rmf, "futureCache").Key() {
 				found = t.Args[1].Key()
-				if ev.Same(t.Args[1], k.SHeight) {
+				key := t.Args[1]
+				if key.Op == "pre" && len(key.Args) == 1 {
+					key = key.Args[0] // the height as read before the delivery call (which may itself advance the height)
+				}
+				if ev.Same(key, k.SHeight) {
 					ok = true
 				}
 			}
